@@ -72,10 +72,16 @@ def join(
     for pp in paths_in:
         with new_dataset(pp) as dsa:
             # sorting key
-            key = "_".join([dsa.config["experiment"]["date"],
-                            dsa.config["experiment"]["time"],
-                            str(dsa.config["experiment"]["run index"])
-                            ])
+            etime = dsa.config["experiment"]["time"]
+            # Sort by date, time ("HH:MM:SS"), fractional seconds, and run
+            # index. Do not sort by string representation, since e.g.
+            # "12:00:00.5_1" is sorted before "12:00:00_1" and run index
+            # "10" before "2".
+            key = (dsa.config["experiment"]["date"],
+                   etime[:8],
+                   float(etime[8:] or 0),
+                   dsa.config["experiment"]["run index"],
+                   )
             key_paths.append((key, pp))
     sorted_paths = [p[1] for p in sorted(key_paths, key=lambda x: x[0])]
 
